@@ -51,7 +51,12 @@ RULE = ('one case = one complete schedule of the real Rmcp shared by 2..4 real t
         'seeded schedules at source-line granularity (sys.settrace on rmcp.py/session.py/ipmb.py) and at '
         'shared-access granularity, random configuration (auth none/password/MD5, initial counters incl. the 6-bit '
         'and 32-bit wraps), switch probability 0.02..0.6.  Each case: Spec monitor on the real wire log/results, '
-        'and trace inclusion in the Lean model.  Distinct by (configuration, choice list); non-trivial = at least '
+        'and trace inclusion in the Lean model.  Late-reply stream (always on): for four configurations (two / three '
+        'callers issuing the same command; one caller and the interface\'s own keep-alive) the reply to ONE datagram is '
+        'withheld until the next datagram is sent, under every schedule with <= 2 (thorough: 3) preemptions at '
+        'shared-access granularity - the schedule "A increments, B increments, B reads, A reads" among them; judged '
+        'by an oracle that holds under the fault too: a call may fail, but it never returns the reply to a datagram its '
+        'caller did not send.  Distinct by (configuration, choice list); non-trivial = at least '
         'one context switch between two threads that both still have work.')
 ASSUMPTIONS = [
     'the theorems quantify over ALL schedules of the Lean model; that the model\'s atomic steps are the '
@@ -69,8 +74,13 @@ ASSUMPTIONS = [
     'finished their calls (the application\'s own barrier - a request issued by an application thread during or '
     'after close_session() is the application\'s error, not judged); thread START timing of call_repeatedly is not '
     'explored (the keep-alive thread exists before the first worker request); establish_session itself is C06',
-    'socket buffering: the fake socket is a FIFO, the reference BMC answers every datagram immediately and '
-    'correctly; loss, delay, duplication and stale frames belong to C04',
+    'socket buffering: the fake socket is a FIFO; in the fault-free streams the reference BMC answers every datagram '
+    'immediately and correctly (the model\'s BMC, the monitor\'s clauses X S O C); the late-reply stream delays exactly '
+    'one reply by one exchange and is judged on the real code only (the Lean model has no delayed replies: what it '
+    'proves for that case is rq_seq_distinct_on_wire / late_reply_cannot_match - the late reply cannot carry the '
+    'number of the request it would be mistaken for); loss, duplication and other stale frames belong to C04',
+    'which of the model\'s variants the traces are validated against (stopper joins / sequence number allocated inside '
+    'the lock block) is probed on the real code and cross-checked with the translator\'s reading of the AST',
     'model covers max_retries = 0 and unbridged targets (the configuration explored)',
     'the read of Session.sequence_number made while close_session formats the session for its debug-log line is not '
     'part of the logged access sequence (it feeds the log text only); Close Session is answered with a completion '
@@ -181,7 +191,8 @@ class Env(object):
         self.cur_tx = {}
         self.last_rx = {}
         self.quiet = set()          # tids that are formatting the session for the debug log
-        self.stash = None           # a withheld reply (fault search only): delivered with the next datagram
+        self.stash = None           # a withheld reply (late-reply stream): delivered with the next datagram
+        self.drained = []           # (tid, serial) of datagrams discarded by a non-blocking read
         self.notes = []
         self.stopped = False
 
@@ -196,9 +207,13 @@ class Env(object):
 class FakeSock(object):
     def __init__(self, env):
         self.env = env
+        self.timeout = 2.0
 
     def settimeout(self, t):
-        pass
+        self.timeout = t
+
+    def gettimeout(self):
+        return self.timeout
 
     def close(self):
         pass
@@ -228,6 +243,16 @@ class FakeSock(object):
     def recvfrom(self, n):
         env, s = self.env, self.env.sched
         on = s.active()
+        if self.timeout == 0:
+            # non-blocking read (the repaired transport discards stale datagrams before it sends): it sees what
+            # is in the socket now and never waits.  Fault-free there is nothing (every reply was read by the
+            # exchange it belongs to): no shared access worth a step of the model.  What a fault left behind is
+            # thrown away by the caller; it is noted, not part of the wire log of exchanges.
+            if not env.rxq:
+                raise BlockingIOError(11, 'Resource temporarily unavailable')
+            reply, serial = env.rxq.pop(0)
+            env.drained.append((s.tid() if on else -1, serial))
+            return reply, ('bmc', 623)
         if on:
             s.yield_point('rx')
         if not env.rxq:
@@ -428,6 +453,7 @@ def execute(cfg, policy, record=False):
     out.steps = sched.steps
     out.trace = ['%s:%s' % (tid, ':'.join(str(x) for x in ev)) for tid, ev in sched.log]
     out.wire = env.wire
+    out.drained = env.drained
     out.results = env.results
     out.notes = env.notes + env.bmc.notes
     out.exc = [(t.tid, type(t.exc).__name__) for t in sched.threads if t.exc is not None]
@@ -474,6 +500,20 @@ def variant_joins():
         out = execute(_cfg([(0, 1)], 1, 'none', 5, 0, 'sync', closer=0), S.ReplayPolicy([]))
         _VARIANT[key] = any(tok.endswith(':join') for tok in out.trace)
     return _VARIANT[key]
+
+
+_VARIANT_SEQ = {}
+
+
+def variant_seq_locked():
+    """Is `next_sequence_number` advanced and read inside the lock block?  Probed on one call of the real
+    `_send_and_receive` without preemption: does the lock acquisition precede the first access to the counter?"""
+    key = repo.REPO
+    if key not in _VARIANT_SEQ:
+        out = execute(_cfg([(1, 1)], 0, 'none', 5, 0, 'sync'), S.ReplayPolicy([]))
+        evs = [tok.split(':')[1] for tok in out.trace]
+        _VARIANT_SEQ[key] = ('acq' in evs and 'ldNS' in evs and evs.index('acq') < evs.index('ldNS'))
+    return _VARIANT_SEQ[key]
 
 
 def _switches(out):
@@ -543,9 +583,10 @@ def judge(ctx, cfg, out, drv, model=True, choices=None):
     if model:
         xl = 1 if cfg['auth'] == 'md5' else 0
         cl = _closer(cfg)
-        ans = drv.ask('run %d %d %d %s %s %s %d | %s' % (
+        ans = drv.ask('run %d %d %d %s %s %s %d %d | %s' % (
             xl, cfg['ns0'], cfg['ss0'], ','.join(_model_threads(cfg)) or '-', cfg['ka'] if cfg['ka'] else '-',
-            cl if cl is not None else '-', 1 if variant_joins() else 0, ' '.join(out.trace)))
+            cl if cl is not None else '-', 1 if variant_joins() else 0, 1 if variant_seq_locked() else 0,
+            ' '.join(out.trace)))
         ok = False
         if ans.startswith('ok wire'):
             body = ans[len('ok wire'):].split()
@@ -845,14 +886,117 @@ def _keepalive_probe(ctx):
 
 
 def _variant_probe(ctx):
-    """The variant of the model is what the real stopper does; the translator read the same from the AST."""
+    """The variants of the model are what the real stopper does and where the real call allocates its sequence
+    number; the translator read the same from the AST."""
     joins = variant_joins()
     ctx.extra['stopper_joins_keepalive_thread'] = joins
+    locked = variant_seq_locked()
+    ctx.extra['sequence_number_allocated_inside_lock'] = locked
     shape = ctx.extra.get('source_shape') or {}
+    if 'seqInLock' in shape and bool(shape['seqInLock']) != locked:
+        ctx.disagree('variant', {'probe': 'one call of _send_and_receive, no preemption'},
+                     'translator: seqInLock=%s (%s mentions of the counter outside the lock block)' % (
+                         shape['seqInLock'], shape.get('seqOutsideLock')),
+                     'the real call %s the lock before it touches next_sequence_number' % (
+                         'takes' if locked else 'does NOT take'))
     if 'stopperJoins' in shape and bool(shape['stopperJoins']) != joins:
         ctx.disagree('variant', {'probe': 'close_session() with the keep-alive asleep, no preemption'},
                      'translator: stopperJoins=%s (%s)' % (shape['stopperJoins'], shape.get('stopperText')),
                      'real stopper %s the keep-alive thread' % ('joins' if joins else 'does not join'))
+
+
+LATE_CFGS = [
+    # (workers, keep-alive ticks, datagram whose reply is withheld until the next datagram is sent)
+    ([(1, 1), (1, 1)], 0, 0),          # two callers, the same command
+    ([(1, 1)], 1, 0),                  # a caller and the interface's own keep-alive (Get Device ID both)
+    ([(2, 1), (1, 1)], 0, 1),
+    ([(1, 4), (1, 4), (1, 4)], 0, 0),
+]
+
+
+def _dup_rq(out):
+    """pairs of consecutive transmissions that carry the same IPMB request sequence number"""
+    prev, bad = None, []
+    for w in out.wire:
+        p = w.split(':')
+        if p[0] != 'T':
+            continue
+        if prev is not None and prev[4] == p[4]:
+            bad.append((prev[1], prev[2], p[1], p[2], p[4]))
+        prev = p
+    return bad
+
+
+def _late_reply_stream(ctx, drv, budget_s):
+    """ONE late reply together with every schedule (<= 2 preemptions, thorough 3, at shared-access granularity:
+    every load / store of next_sequence_number is a scheduling point): the reply to one datagram is withheld until
+    the next datagram is sent - its sender times out, the late reply then sits in front of the next caller's own.
+    Under that fault a call may fail, but no caller may be handed the reply to a datagram it did not send.  (The
+    schedule "A increments, B increments, B reads, A reads" is among them: then both datagrams carry one number.)"""
+    import time
+    t_end = time.time() + budget_s
+    st = {'n': 0, 'dup': 0}
+
+    def ex_for(cfg):
+        def ex(prefix):
+            out = execute(cfg, S.ReplayPolicy(prefix), record=True)
+            st['n'] += 1
+            ctx.case(('late', repr(sorted(cfg.items())), tuple(out.choices)), nontrivial=_switches(out) > 0)
+            ctx.count('late-reply:schedules')
+            if out.status != 'complete':
+                ctx.disagree('scheduler (late-reply stream)', _case_of(cfg, out.choices), 'complete', out.status)
+                return None
+            if _dup_rq(out):
+                st['dup'] += 1
+                ctx.count('late-reply:same-rq_seq-on-consecutive-datagrams')
+            if any(r[3] for r in out.results):
+                ctx.count('late-reply:a-call-timed-out')
+            if out.drained:
+                ctx.count('late-reply:late-datagram-discarded-before-next-request')
+            before = len(ctx.violations)
+            if _judge_faulty(ctx, cfg, out) and not st.get('shrunk'):
+                st['shrunk'] = True
+                small = _shrink_faulty(cfg, out.choices)
+                if small is not None and len(small[0]) < len(out.choices) and len(ctx.violations) > before:
+                    ctx.violations[before].update(small[1])
+                    ctx.violations[before]['case']['shrunk_from'] = len(out.choices)
+            return out.record
+        return ex
+    for i, (workers, ka, late) in enumerate(LATE_CFGS):
+        cfg = _cfg(workers, ka, ['none', 'md5', 'password'][i % 3], 0x40 + i, [4, 62, 63, 0][i % 4], 'access')
+        cfg['late'] = late
+        S.explore(ex_for(cfg), 2 if ctx.tier == 'quick' else 3, limit=4000 if ctx.tier == 'quick' else 60000,
+                  should_stop=lambda: time.time() > t_end or len([v for v in ctx.violations
+                                                                   if v['signature'] == 'C14:caller-got-another-reply']) >= 2)
+    ctx.extra['late_reply_stream'] = {'schedules': st['n'], 'with_duplicate_rq_seq': st['dup']}
+
+
+def _shrink_faulty(cfg, choices):
+    """shortest prefix of the choice list (then no preemption) under which a caller still gets a foreign reply"""
+    last = {}
+
+    def bad(n):
+        out = execute(cfg, S.ReplayPolicy(choices[:n]))
+        q = _Quiet()
+        if out.status == 'complete' and _judge_faulty(q, cfg, out, choices=choices[:n]):
+            last[n] = q.violations[0]
+            return True
+        return False
+    try:
+        lo, hi = 0, len(choices)
+        if not bad(hi):
+            return None
+        while lo < hi:
+            mid = (lo + hi) // 2
+            if bad(mid):
+                hi = mid
+            else:
+                lo = mid + 1
+        if hi in last or bad(hi):
+            return choices[:hi], last[hi]
+    except Exception:  # noqa
+        pass
+    return None
 
 
 def run(ctx):
@@ -862,6 +1006,7 @@ def run(ctx):
         return
     _keepalive_probe(ctx)
     _variant_probe(ctx)
+    _late_reply_stream(ctx, drv, 8 if ctx.tier == 'quick' else 120)
     _explore_all(ctx, drv, ctx.tier)
 
 
